@@ -610,3 +610,111 @@ def quoted_name(c0: int, c1: int, c2: int, q: str) -> Tuple[str, List[str]]:
     inner = qpick(c0) + qpick(c1) + qpick(c2)
     a, qs = ExpressionUtility.get_name_and_qualifiers('"' + inner + '".' + q)
     return (a, list(qs))
+
+
+# ------------------------------------------------------------------ O1e every function name of the factory, with a qualifier
+def factory_names():
+    """function names FunctionFactory.get_function knows, read from its source (string literals compared with `name`)"""
+    import ast
+    import inspect
+    from csvpath.matching.functions.function_factory import FunctionFactory
+
+    src = inspect.getsource(FunctionFactory.get_function)
+    tree = ast.parse("class X:\n" + src)
+    names = []
+    for n in ast.walk(tree):
+        if isinstance(n, ast.Compare) and isinstance(n.left, ast.Name) and n.left.id in ("name", "qname"):
+            for c in n.comparators:
+                if isinstance(c, ast.Constant) and isinstance(c.value, str) and c.value:
+                    names.append(c.value)
+                elif isinstance(c, (ast.List, ast.Tuple)):
+                    names += [e.value for e in c.elts if isinstance(e, ast.Constant) and isinstance(e.value, str)]
+    return sorted(set(names))
+
+
+@ob(
+    "C17",
+    "O1e-function-names",
+    kind="query",
+    bound="every function name the factory knows (read from the source of FunctionFactory.get_function), written plain, with one "
+    "qualifier and with two qualifiers: the text parses and the component tree carries exactly that name and those qualifiers. "
+    "(An enumeration of the names found in the source, not a solver query; kept with the grammar obligations it completes.)",
+    outside="arity and argument types (checked after parsing)",
+    encodes=["csvpath/matching/functions/function_factory.py:FunctionFactory.get_function", "csvpath/matching/lark_transformer.py:LarkTransformer.function"],
+    tiers={"quick": {"timeout": 600}},
+)
+def function_names(tier, cfg, shard, carve):
+    names = factory_names()
+    if len(names) < 50:
+        return {"verdict": "CANNOT_CONFIRM", "message": f"only {len(names)} function names found in the factory source", "cex": None, "z3_queries": 0, "z3_s": 0, "paths": 0}
+    checked = 0
+    for n in names:
+        for q in ("", ".onmatch", ".myname.notnone"):
+            text = "[ %s%s() ]" % (n, q)
+            try:
+                d = tree_vs_source(text)
+            except Exception as e:
+                d = "raised " + repr(e)[:200]
+            checked += 1
+            if d:
+                return {"verdict": "SAT", "message": d[:400], "cex": {"text": text}, "z3_queries": 0, "z3_s": 0, "paths": checked}
+    return {"verdict": "UNSAT", "message": "", "cex": None, "z3_queries": 0, "z3_s": 0, "paths": checked, "witness": {"names": len(names), "sample": names[:8]},
+            "engine": "enumeration of names read from the source + real parser/transformer", "extra": {"names": len(names), "programs": checked}}
+
+
+def replay_function_names(args):
+    return replay_tree_equals_source(args)
+
+
+# ------------------------------------------------------------------ O1f the documented variable-name language is accepted
+def documented_variable_regex():
+    import re
+
+    with open("/repo/docs/variables.md") as f:
+        text = f.read()
+    m = re.search(r"/(@\[[^\n]*?\]\+)/", text)
+    return m.group(1) if m else None
+
+
+@ob(
+    "C17",
+    "O1f-documented-names-accepted",
+    kind="query",
+    bound="the regular expression docs/variables.md gives for variable names against the live VARIABLE terminal of the grammar: one z3 "
+    "query, no text of the documented language is outside the terminal's language",
+    outside="header and reference names (the docs give no pattern for them)",
+    encodes=["csvpath/matching/lark_parser.py:LarkParser.GRAMMAR (VARIABLE terminal)", "docs/variables.md (documented pattern)"],
+    tiers={"quick": {"timeout": 300}},
+)
+def documented_names(tier, cfg, shard, carve):
+    rules, terms = grammar()
+    doc = documented_variable_regex()
+    if not doc:
+        return {"verdict": "CANNOT_CONFIRM", "message": "no variable-name pattern found in docs/variables.md", "cex": None, "z3_queries": 0, "z3_s": 0, "paths": 0}
+    try:
+        ldoc = regex2z3.rx(doc)
+        lterm = regex2z3.rx(terms["VARIABLE"])
+    except regex2z3.Unmodelled as e:
+        return {"verdict": "CANNOT_CONFIRM", "message": "unmodelled regex: " + str(e), "cex": None, "z3_queries": 0, "z3_s": 0, "paths": 0}
+    x = z3.String("x")
+    s0 = z3.Solver()
+    s0.add(z3.InRe(x, ldoc))
+    if str(s0.check()) != "sat":
+        return {"verdict": "VACUOUS", "message": "documented language empty", "cex": None, "z3_queries": 1, "z3_s": 0, "paths": 0}
+    s = z3.Solver()
+    s.set("timeout", 120000)
+    s.add(z3.InRe(x, ldoc), z3.Not(z3.InRe(x, lterm)))
+    t = time.time()
+    r = s.check()
+    dt = round(time.time() - t, 3)
+    if str(r) == "sat":
+        name = s.model()[x].as_string()
+        return {"verdict": "SAT", "message": f"documented variable name {name!r} is not a VARIABLE token", "cex": {"text": "[ %s = 1 ]" % name}, "z3_queries": 2, "z3_s": dt, "paths": 1}
+    if str(r) != "unsat":
+        return {"verdict": "CANNOT_CONFIRM", "message": f"solver: {r}", "cex": None, "z3_queries": 2, "z3_s": dt, "paths": 1}
+    return {"verdict": "UNSAT", "message": "", "cex": None, "z3_queries": 2, "z3_s": dt, "paths": 1, "witness": {"documented": doc, "terminal": terms["VARIABLE"]},
+            "engine": "z3 regular-language inclusion"}
+
+
+def replay_documented_names(args):
+    return replay_tree_equals_source(args)
